@@ -24,7 +24,7 @@ LEVEL = "model_checking"
 CRATE = "harness-vec"
 
 # generator config -> one case in n for the quick tier
-GROUPS = {"child": 1, "rtr": 6, "aspa": 12, "roa": 60}
+GROUPS = {"child": 1, "rtr": 3, "aspa": 6, "roa": 25}
 JOPTS = ("-Xss256m -Xmx3g -XX:ParallelGCThreads=2 -XX:CICompilerCount=2 "
          "-Dtlc2.tool.queue.IStateQueue=StateDeque")
 CHUNK = 8000
@@ -43,6 +43,16 @@ NEEDED = {
     ("chadd", "resources-not-held"), ("chadd", "duplicate-child"),
     ("chupd", "ok"), ("chupd", "no-resources"),
     ("chupd", "resources-not-held"),
+    # states with entries for resources the CA has lost since
+    ("roa", "ok-with-lost-resources"),
+    ("roa", "refused-with-lost-resources"),
+    ("aspa", "ok-with-lost-resources"),
+    ("aspa", "refused-with-lost-resources"),
+    ("aspap", "ok-with-lost-resources"),
+    ("rtr", "ok-with-lost-resources"),
+    ("rtr", "refused-with-lost-resources"),
+    ("chupd", "ok-with-lost-resources"),
+    ("chupd", "refused-with-lost-resources"),
 }
 
 
@@ -86,9 +96,9 @@ def run_shards(chk, name, cases):
     # consecutive cases share the CA state: fewer set-up commands
     cases = sorted(cases, key=lambda c: (c["kind"], json.dumps(
         c["state"], sort_keys=True)))
-    nshards = max(1, (len(cases) + CHUNK - 1) // CHUNK)
-    if len(cases) > 400:
-        nshards = max(nshards, min(vlib.NCPU, 16))
+    # every shard sets up its own CA and costs a TLC start-up later
+    nshards = max(1, (len(cases) + CHUNK - 1) // CHUNK,
+                  min(vlib.NCPU, 16, len(cases) // 500))
     size = (len(cases) + nshards - 1) // nshards
     jobs = []
     for i in range(nshards):
@@ -251,7 +261,15 @@ def self_test(chk, trace_paths):
             m["obs"]["after"] = m["obs"]["before"]
             bad.append(m)
             kinds.add("accepted-partial")
-    if len(kinds) < 5:
+        if o["res"] == "ok" and ln["kind"] in ("roa", "aspa", "rtr") \
+                and "objects-differ" not in kinds:
+            field = {"roa": "roas", "aspa": "aspas", "rtr": "rtr"}[ln["kind"]]
+            if o["pub"][field]:
+                m = copy.deepcopy(ln)
+                m["obs"]["pub"][field] = o["pub"][field][1:]
+                bad.append(m)
+                kinds.add("objects-differ")
+    if len(kinds) < 6:
         raise vlib.ToolError(f"self-test: could not build every corruption "
                              f"(have {sorted(kinds)})")
     path = os.path.join(chk.out, "selftest.ndjson")
@@ -265,7 +283,8 @@ def self_test(chk, trace_paths):
     chk.cov["selftest"] = (f"{len(bad)} corrupted observations (accepted "
                            f"turned refused and back, refused with changed "
                            f"configuration / objects, accepted but not "
-                           f"applied) all rejected")
+                           f"applied, published payload missing) all "
+                           f"rejected")
 
 
 def run(tier, seed):
@@ -280,11 +299,14 @@ def run(tier, seed):
         "updating a child that does not exist is expected to be refused",
         "'repository untouched' is observed on the CA's stored object set "
         "(ca_objects: everything the CA publishes, including manifest and "
-        "CRL numbers); the transfer to the publication server is C01's "
+        "CRL numbers); after an accepted request the ROA / ASPA / router "
+        "certificate payloads decoded from that object set must equal the "
+        "configuration; the transfer to the publication server is C01's "
         "business; one audit record for a refused command is allowed",
-        "the CA holds AS64001-AS64002, 10.0.0.0/16, 2001:db8::/32 throughout "
-        "(states with configuration for resources lost later are not part "
-        "of this universe)",
+        "the CA holds AS64001-AS64002, 10.0.0.0/16, 2001:db8::/32 whenever a "
+        "request is submitted; states with entries for resources lost since "
+        "(11.0.0.0/24, AS64003) are set up by growing the CA's certificate "
+        "through its parent CA, configuring, and shrinking it again",
     ]
     found = {}
     seen = set()
@@ -321,7 +343,8 @@ def run(tier, seed):
     report_all(chk, found)
     chk.cov["exhaustive"] = tier == "thorough"
     chk.cov["rule"] = (
-        "cases = CA state (<=2 configured entries from a pool) x request: "
+        "cases = CA state (<=2 configured entries from a pool, including "
+        "entries for resources the CA has lost since) x request: "
         "ROA deltas (<=2 added + <=2 removed, <=3 entries, from pools with "
         "held/unheld/overlapping prefixes, v4/v6, max length implicit, =len, "
         "len+1, family max, family max+1, len-1, AS0, comments), ASPA "
